@@ -26,6 +26,9 @@ import traceback
 from collections import Counter
 
 VERIF = os.path.dirname(os.path.dirname(os.path.abspath(__file__)))
+# evidence/ and replays/ are written under OUT: /verif itself, except when a seeded change is being
+# tried (tools/seed.py), whose output must not overwrite the evidence of the real tree
+OUT = os.environ.get("VERIF_OUT") or VERIF
 SCRATCH = "/dev/shm" if os.path.isdir("/dev/shm") else "/tmp"
 
 
@@ -135,7 +138,7 @@ def explain(fail, findings):
 
 
 def write_replay(pid, fail):
-    d = os.path.join(VERIF, "replays", pid)
+    d = os.path.join(OUT, "replays", pid)
     os.makedirs(d, exist_ok=True)
     name = h8(fail)
     path = os.path.join(d, name + ".json")
@@ -279,8 +282,8 @@ def run_check(check, tier, seed, triage=False, jobs=None, limit=None):
         "coverage": cov, "assumptions": list(check.assumptions),
         "wall_s": round(time.time() - t0, 2), "violations": len(unexplained),
     }
-    os.makedirs(os.path.join(VERIF, "evidence"), exist_ok=True)
-    with open(os.path.join(VERIF, "evidence", pid + ".json"), "w") as fh:
+    os.makedirs(os.path.join(OUT, "evidence"), exist_ok=True)
+    with open(os.path.join(OUT, "evidence", pid + ".json"), "w") as fh:
         json.dump(ev, fh, indent=1, default=repr, ensure_ascii=False)
 
     print("%s tier=%s seed=%d cases=%d/%d evaluations=%d nontrivial=%d refused=%d outcomes=%d states=%d transitions=%d wall=%.1fs%s"
